@@ -222,7 +222,10 @@ func (d *cbDriver) random(rng *rand.Rand, nops int) {
 		case k < 9:
 			r := cbAlphabet[rng.Intn(len(cbAlphabet))]
 			if rng.Intn(6) == 0 {
-				r = rune(rng.Intn(0x3000))
+				// (code points whose width the tables do not agree on - spacing marks, unassigned, private use - are not
+				// used as content: the statement cannot say whether they are stored or blanked)
+				for r = rune(rng.Intn(0x3000)); runes.Class(r) == -1; r = rune(rng.Intn(0x3000)) {
+				}
 			}
 			d.setContent(x, y, r, cbCombs[rng.Intn(len(cbCombs))], tcx.RandStyle(rng, true, true))
 		case k < 10:
